@@ -118,7 +118,8 @@ func genRule(r *rng.R) (T float64, tmo, st uint32) {
 	case x < 38:
 		T = math.Inf(1)
 	case x < 39:
-		T = math.NaN()
+		// (a NaN threshold can no longer be loaded: flow.IsValidRule rejects it since /repo 1e1f6ae)
+		T = r.PickF(math.MaxFloat64, math.Inf(1), 0.75)
 	default:
 		T = float64(r.Range(1, 1000000)) / float64(r.Range(1, 1000))
 	}
